@@ -6,7 +6,10 @@ SPEC = {
     "allowed_axioms": [],
     "extract": {"LibTw2.Model.Buffer": ["run_store", "prog_wf", "store_wf"]},
     "components": [{"bin": "buffer", "driver": "drv_buffer",
-                    "timeout": {"quick": 600, "thorough": 2400}}],
+                    "timeout": {"quick": 600, "thorough": 2400},
+                    # thorough tier: the same generated programs (a small slice) under Miri with Tree Borrows --
+                    # supporting evidence for the memory-safety half, never a substitute for a theorem
+                    "miri": {"args": ["--scale", "1", "--sweep", "4"], "timeout": 2400}}],
     # the model has the arithmetic of the debug build (overflow checks on); a release build lets
     # `advance(n)` wrap for n near usize::MAX (the caller of that unsafe fn breaks its contract)
     "release": False,
